@@ -408,13 +408,18 @@ def nomap_rejects_negative(ctx: Ctx) -> None:
         while isinstance(cur, ast.If):
             arms.append((norm(cur.test), cur.body))
             cur = cur.orelse[0] if len(cur.orelse) == 1 else None
-    wanted = {'ndarray': 'integer array', 'slice': 'slice bounds', 'INT_TYPES': 'element', 'list': 'list of labels'}
+    wanted = {('ndarray',): 'integer array', ('slice',): 'slice bounds', ('INT_TYPES', 'np.integer', 'Integral', 'int)', 'int,'): 'element', ('list', 'KEY_ITERABLE'): 'list of labels'}
+    # statements of the branch that belong to no arm (a catch-all after the dispatch)
+    arm_ids = {id(x) for _t, b in arms for st in b for x in ast.walk(st)}
+    tail = [st for st in branch.body if not isinstance(st, ast.If) and id(st) not in arm_ids]
     n = 0
-    for marker, what in wanted.items():
-        arm = [(t, b) for t, b in arms if marker in t]
+    for markers, what in wanted.items():
+        arm = [(t, b) for t, b in arms if any(mk in t for mk in markers)]
         key = f'Index._loc_to_iloc:no-map:{what}'
         n += 1
-        if not arm:
+        if not arm and guards_negative(tail):
+            ctx.ok(R, f, branch, f'{what}: no arm of its own; the catch-all after the dispatch rejects negative integers', key=key)
+        elif not arm:
             ctx.bad(R, f, branch, f'the map-less route has no arm for the {what}: such a key is returned as it is, and a negative integer selects from the end', key=key)
         elif guards_negative(arm[0][1]):
             ctx.ok(R, f, arm[0][1][0], f'{what}: a negative integer raises', key=key)
